@@ -430,14 +430,21 @@ def _poly_en(co, x, amp):
 
 
 def _jpow(a, p):
-    if all(c.v == 0.0 for c in p.c[1:]) and p.c[0].e == 0.0 and p.c[0].u == 0.0:
-        return a.powc(p.c[0].v)
-    if a.v <= 0.0:
-        # a(r)**b(r) with non-constant b is only defined here for positive bases
-        if all(c.v == 0.0 for c in p.c[1:]) and p.v == int(p.v):
-            return a.powc(p.v)
-        raise DomainError("non-positive base with varying exponent")
-    return (p * a.log()).exp()
+    """a(r) ** b(r).  For a positive base the general form exp(b log a) is used even when the exponent is
+    constant: the library differentiates pow() with the general product/chain formula, whose terms cancel
+    (pow(r, 1) has deriv2 = 1/r - 1/r), so the rounding scale must be that of the general formula and not of the
+    better conditioned special case."""
+    const_exp = all(c.v == 0.0 for c in p.c[1:]) and p.c[0].e == 0.0 and p.c[0].u == 0.0
+    if a.v > 0.0:
+        y = (p * a.log()).exp()
+        if const_exp:
+            # keep the (more accurate) directly computed value, with the general formula's scales
+            direct = a.powc(p.c[0].v)
+            y = Jet([EN(d.v, max(d.e, g.e), max(d.u, g.u)) for d, g in zip(direct.c, y.c)])
+        return y
+    if const_exp and p.v == int(p.v):
+        return a.powc(p.v)
+    raise DomainError("non-positive base with varying or fractional exponent")
 
 
 def _piecewise_const(v, n):
